@@ -4,9 +4,9 @@
    regenerated from the source on every run (Gen/GenGetAsInt.v, Gen/GenMeta.v); byte/word/dword/ascii_impl/
    compile_word_list/string_escape are the hand model Model/Directives.v, tied by correspondence. *)
 From Coq Require Import String List ZArith NArith Bool.
-From Verif Require Import Base.Res Gen.GenGetAsInt Gen.GenMeta Model.Directives Spec.DataSpec
+From Verif Require Import Base.Res Gen.GenGetAsInt Gen.GenMeta Model.Directives Model.DirectivesSeq Spec.DataSpec Spec.DataBlockSpec
   Proofs.DirectivesGai Proofs.DirectivesData Proofs.DirectivesAnnounce Proofs.DirectivesFill
-  Proofs.DirectivesAscii Proofs.DirectivesEscape Proofs.DirectivesSpec.
+  Proofs.DirectivesAscii Proofs.DirectivesEscape Proofs.DirectivesSpec Proofs.DirectivesBlock Proofs.DirectivesBlockRun.
 Import ListNotations.
 Open Scope string_scope.
 Open Scope list_scope.
@@ -179,6 +179,46 @@ Theorem C06_model_meets_spec :
 Proof. exact model_meets_spec. Qed.
 Print Assumptions C06_model_meets_spec.
 
+(* ---- values written as character literals (types.CharLiteral.resolve in the operand loop) -------- *)
+(* Spec.DataBlockSpec.stated_image is nothing new: it is the one image the frozen checker accepts *)
+Theorem C06_stated_image_is_the_allowed_one :
+  forall enc d addr bs,
+  (stated_image enc d addr = Some bs -> meets enc d addr (Image bs) = true) /\
+  (must_refuse enc d addr = false -> allowed enc d addr bs = true -> stated_image enc d addr = Some bs).
+Proof. exact (fun enc d addr bs => conj (stated_meets enc d addr bs) (allowed_unique enc d addr bs)). Qed.
+Print Assumptions C06_stated_image_is_the_allowed_one.
+
+(* every literal has a value (its bytes in the output charset, at most two, as a little-endian number):
+   the directive is the directive on those values *)
+Theorem C06_literal_clean :
+  forall enc w ops vs addr, operands_values enc ops = Some vs ->
+  emit_lit enc (vname w) (map operand_of ops) addr = emit enc (DMeta (vname w) (plain vs)) addr.
+Proof. exact literal_clean. Qed.
+Print Assumptions C06_literal_clean.
+
+(* a literal that is unencodable or takes more than two bytes in the output charset (any codec, so also a
+   multi-byte one): the directive is refused -- never stored truncated *)
+Theorem C06_literal_refused :
+  forall enc w ops addr, operands_values enc ops = None ->
+  observe (emit_lit enc (vname w) (map operand_of ops) addr) = Refused.
+Proof. exact literal_refused. Qed.
+Print Assumptions C06_literal_refused.
+
+(* ---- directives one after another and inside .repeat --------------------------------------------- *)
+(* every copy of every directive -- also the 2nd, 3rd ... repetition of a .repeat body -- stores the image the
+   Spec states at the address where the bytes before it end, with no error; or the program is refused *)
+Theorem C06_program_meets_spec :
+  forall enc its addr,
+  meets_items enc its addr (observe (fst (items_run enc (map embed_item its) addr))) = true.
+Proof. exact items_meet_spec. Qed.
+Print Assumptions C06_program_meets_spec.
+
+Theorem C06_repeat_is_unrolled :
+  forall enc n body addr img, rep_image enc n body addr = Some img ->
+  exists dg, fst (repeat_run enc n (map embedl body) addr) = Out dg img /\ existsb is_error dg = false.
+Proof. exact repeat_is_unrolled. Qed.
+Print Assumptions C06_repeat_is_unrolled.
+
 (* ---- the hypotheses are satisfiable by non-trivial instances ------------------------------------ *)
 Example C06_ex_gai_boundaries :
   get_as_int (Some 8) false None 255 = Ok 255 /\ get_as_int (Some 8) false None (-255) = Ok 1 /\
@@ -209,3 +249,27 @@ Proof. vm_compute. split; reflexivity. Qed.
 
 Example C06_ex_announced : announced (DMeta ".dword" (plain [1; 2; 3])) = Some 12 /\ announced (DMeta ".byte" []) = Some 1.
 Proof. vm_compute. split; reflexivity. Qed.
+
+(* a stand-in for a multi-byte charset: U+20AC is three bytes, U+044F two, 'A' one *)
+Definition ex_enc (s : list N) : option (list Z) :=
+  match s with
+  | [8364%N] => Some [226; 130; 172]
+  | [1103%N] => Some [209; 143]
+  | [65%N] => Some [65]
+  | _ => None
+  end.
+
+Example C06_ex_literals :
+  emit_lit ex_enc ".word" [OLit [1103%N]; OLit [65%N]] 512 = Out [] [209; 143; 65; 0] /\
+  operands_values ex_enc [SLit [8364%N]] = None /\
+  emit_lit ex_enc ".word" [OLit [8364%N]] 512 = Out [(E, "too-long-string")] [226; 130] /\
+  observe (emit_lit ex_enc ".byte" [OLit [1103%N]] 512) = Refused.
+Proof. vm_compute. repeat split; reflexivity. Qed.
+
+(* .repeat 2 { .byte 1 / .even / .byte 2 } at an even address: the second copy needs no fill *)
+Example C06_ex_repeat :
+  let body := [SPlain (SData W8 [1]); SPlain SEven; SPlain (SData W8 [2])] in
+  rep_image ex_enc 2 body 512 = Some [1; 0; 2; 1; 2] /\
+  fst (items_run ex_enc [XRepeat 2 (map embedl body)] 512) = Out [] [1; 0; 2; 1; 2] /\
+  rep_image ex_enc 2 [SPlain (SData W16 [2]); SPlain (SData W8 [1])] 512 = None.
+Proof. vm_compute. repeat split; reflexivity. Qed.
